@@ -70,7 +70,7 @@ OPS = {
     'And': (lambda par, n, a, o, p: py4hw.And(par, n, list(a), o), lambda v, ws, w, p: _fold(v, lambda x, y: x & y)),
     'Or': (lambda par, n, a, o, p: py4hw.Or(par, n, list(a), o), lambda v, ws, w, p: _fold(v, lambda x, y: x | y)),
 }
-STATE_OPS = ('Reg',)
+STATE_OPS = ('Reg', 'Mem')
 
 
 def _fold(v, f):
@@ -93,7 +93,7 @@ COMB_OPS_BASIC = ['And2', 'Or2', 'Xor2', 'Nand2', 'Not', 'Buf', 'Add', 'Sub', 'M
 
 @st.composite
 def netlists(draw, max_nodes=20, min_nodes=1, ops=None, n_regs=(0, 0), reg_opts=True, hierarchy=0, domains=False,
-             widths=None, div=False, max_w=64):
+             widths=None, div=False, max_w=64, n_mems=(0, 0)):
     ops = list(ops or COMB_OPS_BASIC)
     if div:
         ops += ['Div', 'Mod']
@@ -139,6 +139,13 @@ def netlists(draw, max_nodes=20, min_nodes=1, ops=None, n_regs=(0, 0), reg_opts=
         w = draw(st.sampled_from(widths))
         nodes.append({'op': 'Reg', 'args': [None], 'w': w, 'p': {}, 'g': -1})
         reg_ids.append(len(nodes) - 1)
+        sigs.append(('n%d' % (len(nodes) - 1), w))
+
+    mem_ids = []
+    for _ in range(draw(st.integers(n_mems[0], n_mems[1]))):
+        w = draw(st.sampled_from([x for x in widths if x <= 16] or [widths[0]]))
+        nodes.append({'op': 'Mem', 'args': [None], 'w': w, 'p': {'aw': draw(st.integers(1, 3))}, 'g': -1})
+        mem_ids.append(len(nodes) - 1)
         sigs.append(('n%d' % (len(nodes) - 1), w))
 
     n_comb = draw(st.integers(min_nodes, max_nodes))
@@ -220,6 +227,11 @@ def netlists(draw, max_nodes=20, min_nodes=1, ops=None, n_regs=(0, 0), reg_opts=
             p['rst'] = True
         nodes[rid]['args'] = args
         nodes[rid]['p'] = p
+    for mid in mem_ids:
+        aw = nodes[mid]['p']['aw']
+        ra = pick(aw)
+        wa = ra if draw(st.integers(0, 2)) == 0 else pick(aw)      # same-address read/write is frequent
+        nodes[mid]['args'] = [ra[0], wa[0], pick(1)[0], pick(nodes[mid]['w'])[0]]
     # outputs: a few signals, always including the last node
     n_out = draw(st.integers(1, 3))
     node_sigs = ['n%d' % k for k in range(len(nodes))]
@@ -333,6 +345,7 @@ def ref_trace(desc, seq, raw_out=None):
     order = comb_order(desc)
     nodes = desc['nodes']
     regs = {k: 0 for k, nd in enumerate(nodes) if is_state(nd)}
+    memdata = {k: [0] * (1 << nd['p']['aw']) for k, nd in enumerate(nodes) if nd['op'] == 'Mem'}
     trace = []
     for t, invals in enumerate(seq):
         pre = ref_settle(desc, order, invals, regs)
@@ -348,6 +361,17 @@ def ref_trace(desc, seq, raw_out=None):
                 if ev == 0:
                     continue        # gated: holds
             args = nd['args']
+            if nd['op'] == 'Mem':
+                ra, wa, we, wd = [pre[a] for a in args]
+                if ra is None or wa is None or we is None or (we and wd is None):
+                    new[k] = None
+                    memdata[k] = [None] * len(memdata[k])
+                    continue
+                new[k] = memdata[k][ra]              # read returns the content before a same-cycle write
+                if we:
+                    memdata[k] = list(memdata[k])
+                    memdata[k][wa] = wd
+                continue
             d = pre[args[0]]
             j = 1
             en = 1
@@ -505,6 +529,8 @@ def build(desc, names=None, sysname=None, hook=None):
             if nd['p'].get('rst'):
                 rst = args[j]
             b.node_obj[k] = py4hw.Reg(par, iname, args[0], out, enable=en, reset=rst)
+        elif nd['op'] == 'Mem':
+            b.node_obj[k] = py4hw.SynchronousMemory(par, iname, args[0], args[1], args[2], out, args[3])
         else:
             b.node_obj[k] = OPS[nd['op']][0](par, iname, args, out, nd['p'])
     for k in range(len(desc['inputs'])):
